@@ -97,6 +97,7 @@ pub static SIGS: &[Sig] = &[
     sig!("from_value", &[Tv, S], FM, D14, 1, ALL, true, false, "C03 C16"),
     sig!("zero", &[Tv], FM, D14, 1, ALL, true, false, "C03"),
     sig!("len", &[Tv], FM, D14, 1, ALL, true, false, "C16"),
+    sig!("len", &[Tp], FM, D13, 1, ALL, true, false, "C16 C12"),
     sig!("iter_sum", &[Tv, ManyV], FVR, D14, 1, ALL, true, false, "C17 C03"),
     sig!("cross", &[V, V], FM, &[3], 2, ALL, true, false, "C03"),
     sig!("perp_dot", &[V, V], FM, &[2], 2, ALL, true, false, "C03"),
